@@ -18,4 +18,9 @@ theorem current_engine_isolated {Tok PS Out : Type} (m : Machine Tok PS Out) (i 
     { mode := Yaql.Gen.Engine.lexerMode, shared := shared, threads := threads } engine_mode
   simpa using this
 
+/-- every public entry point that parses a text hands the parse a lexer object of its own: `engine(text)`,
+    `engine(text, options=..)`, `engine.copy(..)(text)`, `YaqlInterface(..)(text)`, interfaces derived with `on(..)` before
+    and after the first evaluation (observed on the live code on every run, see the doc comment of `Gen.Engine.entryModes`) -/
+theorem all_entry_points_perCall : ∀ m ∈ Yaql.Gen.Engine.entryModes, m = .perCall := by decide
+
 end Yaql.Props.C01Gen
